@@ -6,7 +6,7 @@ from vlib.engine import Disc, Outcome
 
 PID = 'C08'
 RULE = ('Hypothesis: client in {ModbusTcpClient, serial rtu, serial ascii, serial binary, ModbusTcpClient with the RTU framer} '
-        'x a history of 1..6 transactions (request kinds FC 1-6,15,16,22,23, diagnostics, report-slave-id) x per transaction '
+        '(and with the ASCII framer) x a history of 1..6 transactions (request kinds FC 1-6,15,16,22,23, diagnostics, report-slave-id) x per transaction '
         'a peer script listing what enters the receive path after the request is written: the conformant reply (normal or '
         'exception, reference-built, values unique per transaction) and/or foreign frames (reply with another transaction id, '
         'another unit, another function code, a duplicate of the previous reply), before, after or instead of it; the '
@@ -19,12 +19,12 @@ ASSUMPTIONS = ['serial request units are drawn from 1..247 (0 is broadcast, 0 an
                'an exception raised by the call is not judged here (C13 owns "returns an error object instead of raising")',
                'binary transactions whose frames contain delimiter bytes are excluded (KF-BINARY-FRAMER-DELIMITER-BYTES)']
 BUDGET = {'quick': 5000, 'thorough': 10000}
-CLIENTS = ['tcp', 'rtu', 'ascii', 'binary', 'tcp+rtu']
+CLIENTS = ['tcp', 'rtu', 'ascii', 'binary', 'tcp+rtu', 'tcp+ascii']
 PARTS = ['reply', 'reply', 'exc', 'other_tid', 'other_unit', 'other_fc', 'dup_prev']
 
 
 def framing_of(client):
-    return {'tcp': 'tcp', 'rtu': 'rtu', 'ascii': 'ascii', 'binary': 'binary', 'tcp+rtu': 'rtu'}[client]
+    return {'tcp': 'tcp', 'rtu': 'rtu', 'ascii': 'ascii', 'binary': 'binary', 'tcp+rtu': 'rtu', 'tcp+ascii': 'ascii'}[client]
 
 
 @st.composite
@@ -122,6 +122,9 @@ def _mk_client(kind):
         return ModbusTcpClient('peer', 502, timeout=1)
     if kind == 'tcp+rtu':
         return ModbusTcpClient('peer', 502, framer=ModbusRtuFramer, timeout=1)
+    if kind == 'tcp+ascii':
+        from pymodbus.transaction import ModbusAsciiFramer
+        return ModbusTcpClient('peer', 502, framer=ModbusAsciiFramer, timeout=1)
     return ModbusSerialClient(method=kind, port='/dev/null', timeout=1, baudrate=19200)
 
 
@@ -153,7 +156,7 @@ def run_case(case):
                 if any(b in (0x7B, 0x7D) for b in fr[1:-1]):
                     labels.append('excluded-binary-delimiter')
                     break
-            if framing != 'tcp' and ckind != 'tcp+rtu':
+            if framing != 'tcp' and not ckind.startswith('tcp+'):
                 rest = b''           # a serial client flushes its input before it sends
                 leftovers = []
             try:
